@@ -17,7 +17,7 @@ func init() {
 	Register(&Profile{Name: "foreign-layout-real", Prop: "C06", Weight: 3, Quick: 3000, Thorough: 60000, Fn: func(r *Run) { foreignLayout(r, true) }})
 	SetMeta("C06", &Meta{
 		Level: "exploration",
-		Rule: "the reference writer (written from the PAR 2.0 specification, own shift-xor GF(2^16)) produces the packet multiset of a generated file set with an arbitrary recovery-exponent subset below 3000; a seeded transport permutes and duplicates packets, interleaves packets of a foreign recovery set and of an unknown type, and distributes the recovery packets over 1-4 arbitrarily named '<base>.<token>.par2' files (tokens and base names with spaces and glob metacharacters in the real-disk profile), within the quantifier's limits (index starts with a packet of its own set and holds no recovery packet, creator packet in every file, ASCII names); then 0-2 media faults, Verify and Repair. Oracles: the absolute oracles of C03/C01 against the reference truth, plus identity of ShardCounts with a gopar-created twin when the exponents are 0..n-1. Non-trivial: the layout differs from gopar's canonical one in at least two respects and Repair had work to do; distinct by (layout features, exponent class, naming class, damage kinds, outcome).",
+		Rule:  "the reference writer (written from the PAR 2.0 specification, own shift-xor GF(2^16)) produces the packet multiset of a generated file set with an arbitrary recovery-exponent subset below 3000; a seeded transport permutes and duplicates packets, interleaves packets of a foreign recovery set and of an unknown type, and distributes the recovery packets over 1-4 arbitrarily named '<base>.<token>.par2' files (tokens and base names with spaces and glob metacharacters in the real-disk profile), within the quantifier's limits (index starts with a packet of its own set and holds no recovery packet, creator packet in every file, ASCII names); then 0-2 media faults, Verify and Repair. Oracles: the absolute oracles of C03/C01 against the reference truth, plus identity of ShardCounts with a gopar-created twin when the exponents are 0..n-1. Non-trivial: the layout differs from gopar's canonical one in at least two respects and Repair had work to do; distinct by (layout features, exponent class, naming class, damage kinds, outcome).",
 		Assumptions: []string{
 			"the reference writer is not claimed to be the specification: every produced file is re-read by the reference reader, and gopar's agreement with it on the unchanged tree (thousands of sets repaired from reference-written archives) is the evidence of its conformance",
 			"MemDisk's directory search is a plain prefix/suffix match; the real-disk profile executes filepath.Glob-based discovery",
@@ -26,7 +26,7 @@ func init() {
 	})
 }
 
-var c06Tokens = []string{"vol00+01", "vol01+02", "x", "anything goes", "part-2", "VOL001+002", "a.b.c", "recovery", "[1]", "a*b", "q?", "{z}", "vol[0-9]"}
+var c06Tokens = []string{"vol00+01", "vol01+02", "x", "anything goes", "part-2", "VOL001+002", "a.b.c", "recovery", "[1]", "a*b", "q?", "{z}", "vol[0-9]", "", ".", ".par2", "par2"}
 var c06Bases = []string{"set", "my set", "s[1]", "a*b", "q?x", "x", "archive.v1", "[ab]c", "back\\slash", "trailing\\", "b\\[1]", "{a,b}", "~tilde", "-dash"}
 
 func hasGlobMeta(s string) bool { return strings.ContainsAny(s, "*?[\\") }
